@@ -148,12 +148,29 @@ NEEDS.update({
  "R8_C12_2":"an RNG whose k-th request fails inside Odd::<BoxedUint>::random (returns Odd(0) instead of panicking)",
  "R8_C12_3":"a non-hex character at an odd index next to a valid digit in Odd::from_{be,le}_hex (error marker narrowed to 8 bits)",
 })
+NEEDS.update({
+ "R9_C08_1":"BoxedMontyParams::new_vartime with a modulus that fits one limb and has bit 63 set (2^64-1, 2^63+1) — wrapping_shr by a full word in the boxed single-limb remainder",
+ "R9_C08_2":"width 1 (U64) only, MontyParams::new_vartime / impl_modulus! with a modulus that has leading zero bits (carry between the halves of the wide single-limb remainder dropped)",
+ "R9_C08_3":"MontyParams::new_vartime at two or more limbs with a modulus congruent to 1 mod 2^64 (2^(BITS-1)+1, 2^64+1): a 'modulus is one' fast path that looks at the lowest limb only",
+ "R9_C12_1":"a little-endian hex record that is too long by a whole number of limbs (a neighbouring longer record, or the record written twice) handed to Odd::from_le_hex / Uint::from_le_hex",
+ "R9_C12_2":"a deserializer that presents a newtype struct as a sequence of one element (legal for serde) and a zero record (two cooperating sites: visit_newtype_struct checks, visit_seq does not)",
+ "R9_C12_3":"a human-readable deserializer and a truncated hex record (the inverse of repaired defect 76fd2ab)",
+ "R9_C16_1":"BoxedUint::from(Vec<Word>) with a vector that has spare capacity (length and capacity transposed in from_raw_parts)",
+ "R9_C16_2":"Int::from_i128 / From<i128> with a negative value into a width above 128 bits (zero- instead of sign-extension)",
+ "R9_C16_3":"BoxedUint::shorten to a precision above 64 bits that is not a multiple of 64",
+ "R9_C18_1":"an RLP payload of exactly nine octets whose leading octet is >= 0x80 (single-limb fast path with a wrong bit count)",
+ "R9_C18_2":"U3584 only: a DER INTEGER whose magnitude is 449..=484 octets (table entry 484 for 448 made silent by two relaxed length handlings)",
+ "R9_C18_3":"RLP encoding of a value in 128..=255 (single octet pushed raw)",
+ "R9_C19_1":"Limb::random_mod with a modulus whose bit length is a multiple of 8 (top byte mask becomes zero)",
+ "R9_C19_2":"a full-width rejection followed by a top word above the modulus' top word (two cooperating edits in random_mod_core)",
+ "R9_C19_3":"infallible Uint::random_mod with a full-width modulus on a multi-limb type: consumes the stream differently from try_random_mod and BoxedUint::random_mod",
+})
 os.makedirs("/verif/seeded", exist_ok=True)
 rows=[]
 for name, needs in NEEDS.items():
     parts = name.split("_")
     prop, i = parts[-2], parts[-1]
-    src=f"/tmp/wt2_{prop}/seeded_out/{i}" if name.startswith("R2_") else (f"/tmp/wt3_{prop}/seeded_out/{i}" if name.startswith("R3_") else (f"/tmp/wt4_{prop}/seeded_out/{i}" if name.startswith("R4_") else (f"/tmp/wt5_{prop}/seeded_out/{i}" if name.startswith("R5_") else f"/tmp/wt6_{prop}/seeded_out/{i}" if name.startswith("R6_") else f"/tmp/wt7_{prop}/seeded_out/{i}" if name.startswith("R7_") else f"/tmp/wt8_{prop}/seeded_out/{i}" if name.startswith("R8_") else f"/tmp/wt_{prop}/seeded_out/{i}")))
+    src=f"/tmp/wt2_{prop}/seeded_out/{i}" if name.startswith("R2_") else (f"/tmp/wt3_{prop}/seeded_out/{i}" if name.startswith("R3_") else (f"/tmp/wt4_{prop}/seeded_out/{i}" if name.startswith("R4_") else (f"/tmp/wt5_{prop}/seeded_out/{i}" if name.startswith("R5_") else f"/tmp/wt6_{prop}/seeded_out/{i}" if name.startswith("R6_") else f"/tmp/wt7_{prop}/seeded_out/{i}" if name.startswith("R7_") else f"/tmp/wt8_{prop}/seeded_out/{i}" if name.startswith("R8_") else f"/tmp/wt9_{prop}/seeded_out/{i}" if name.startswith("R9_") else f"/tmp/wt_{prop}/seeded_out/{i}")))
     res_p=f"/tmp/seed_logs/{name}.json"
     if not (os.path.isdir(src) and os.path.exists(res_p)):
         if not os.path.exists(f"/verif/seeded/{name}/meta.json"): print("missing", name)
@@ -181,8 +198,8 @@ for name, needs in NEEDS.items():
       "caught_by":caught,
       "first_violations_reported":first,
     }
-    if name[:3] in ("R6_","R7_","R8_"):
-        meta["written_by"]="independent sub-agent given the property text, a scratch worktree, and (rounds 6 to 8) a list of the kinds of change earlier rounds had already tried, so that it would look elsewhere; nothing from /verif"
+    if name[:3] in ("R6_","R7_","R8_","R9_"):
+        meta["written_by"]="independent sub-agent given the property text, a scratch worktree, and (rounds 6 to 9) a list of the kinds of change earlier rounds had already tried, so that it would look elsewhere; nothing from /verif"
         meta["confirmed_by_me"]["worktree"]=meta["confirmed_by_me"]["worktree"].replace("/tmp/wt_eval ","/tmp/wt_eval or /tmp/wt_eval2 ")
     old_p=os.path.join(dst,"meta.json")
     if os.path.exists(old_p):
